@@ -4,6 +4,7 @@ import (
 	"fmt"
 	"go/token"
 	"go/types"
+	"strings"
 )
 
 // ---------- write-frame hooks (C12: caller-owned byte arrays are never written) ----------
@@ -40,7 +41,16 @@ func hooksByName(P *Program, name string) *Hooks {
 				if p.K != KElemPtr || !isByteElem(deref(p.T)) {
 					return
 				}
+				if strings.HasPrefix(p.Arr, "(|arrof!") {
+					return // an array embedded in a struct: a field of that object, not a byte buffer handed in
+				}
 				g.oblige("frame-store", text, pos, st.reach, g.ownedTerm(p.Arr, false))
+			},
+			onExtWrite: func(g *Gen, st *State, s *Val, pos token.Pos, text string) {
+				if s.K != KSlice || !isByteElem(elemTypeOf(s.T)) {
+					return
+				}
+				g.oblige("frame-store", "library call writes "+text, pos, st.reach, or(eq(s.Len, "0"), g.ownedTerm(s.Arr, false)))
 			},
 			onAppend: func(g *Gen, st *State, s *Val, n string, pos token.Pos, text string) {
 				if !isByteElem(elemTypeOf(s.T)) {
